@@ -149,6 +149,56 @@ func (c *ctx) invariant(m *histgen.Model, commits []string, after string) {
 	}
 }
 
+func (c *ctx) staleTrackingRef(kinds map[string]bool) {
+	var b string
+	for _, x := range c.g.Branches {
+		if x != "main" {
+			b = x
+			break
+		}
+	}
+	if b == "" {
+		return
+	}
+	// give the branch an object nothing else refers to, and publish main and the branch
+	c.newCommitN(b, 2)
+	if !c.git("push-branch", "push", "origin", "main", b).OK() {
+		return
+	}
+	c.res.pushes++
+	c.invariant(c.rmodel, c.remoteCommits(), "git push origin main "+b)
+	// someone else deletes the branch on the remote; the server drops what only that branch needed
+	if !c.env.PlainGit(c.bare, "update-ref", "-d", "refs/heads/"+b).OK() {
+		return
+	}
+	keep := c.rmodel.OidsInCommits(c.remoteCommits())
+	dropped := 0
+	for oid := range c.model.OidsInCommits(c.model.RevList(b)) {
+		if _, still := keep[oid]; !still {
+			if _, ok := c.srv.Get(c.repoKey, oid); ok {
+				c.srv.Delete(c.repoKey, oid)
+				dropped++
+			}
+		}
+	}
+	if dropped == 0 {
+		return
+	}
+	kinds["stale-tracking-ref+server-gc"] = true
+	c.run.Count("stale_tracking_ref_scenarios", 1)
+	c.run.Count("objects_garbage_collected_on_server", int64(dropped))
+	// this clone still has refs/remotes/origin/<b>; it merges its local branch into main and pushes main
+	c.git("checkout", "checkout", "-q", "main")
+	if !c.git("merge", "merge", "-q", "--no-edit", "-X", "ours", b).OK() {
+		c.git("merge-abort", "merge", "--abort")
+		return
+	}
+	if c.git("push-main-after-merge", "push", "origin", "main").OK() {
+		c.res.pushes++
+		c.invariant(c.rmodel, c.remoteCommits(), "git push origin main (after merging a branch whose remote copy was deleted and garbage-collected)")
+	}
+}
+
 func (c *ctx) remoteCommits() []string {
 	refs := c.rmodel.Refs()
 	if len(refs) == 0 {
@@ -394,6 +444,12 @@ func runCase(run *evid.Run, idx int) *caseResult {
 			res.pushes++
 			c.invariant(c.rmodel, c.remoteCommits(), "git push origin "+b+" (bulk commit)")
 		}
+	}
+	// stale remote-tracking ref: a branch that was pushed is deleted on the remote by someone else, the server
+	// garbage-collects the objects only that branch needed, and this clone (which never prunes its tracking
+	// refs) later merges its own copy of the branch into main and pushes main: the objects have to go up again
+	if !c.stand && !familyB && faultMode == "nofault" && idx%4 == 0 && len(c.g.Branches) > 1 {
+		c.staleTrackingRef(kinds)
 	}
 	for s := 0; s < nsteps; s++ {
 		k := r.Intn(100)
@@ -648,7 +704,7 @@ func sortStrings(s []string) []string {
 func main() {
 	run := evid.New("C03", "exploration")
 	defer sbx.RemoveBase()
-	run.Rule = "seeded histories (histgen: branches, merges incl. octopus, orphan branches, tags, renames/copies/deletes, files moving in and out of LFS tracking, nested .gitattributes, symlinks, exec bits, empty files) pushed by seeded plans over {git push <branch>, --all, --tags, new commits, amended+forced, deleted refs, git lfs push <ref>, git lfs push --all, a second clone moving the remote branch, missing local object with/without lfs.allowincompletepush} x batch size {1,2,3,100} x {http fake server, file:// standalone remote} x transient server faults in one http case out of three {PUT 503, PUT connection reset, batch 429, mixed, uploads answered 200 but lost while the verify action truthfully answers 404, upload actions that are already expired in the first answer, and the schedule 'an object uses up its retry budget, then meets objects not yet sent in a batch call that fails' with a bulk commit and a slow batch endpoint}; family b re-points the remote to an empty server. Oracle: brute-force enumeration (git rev-list/ls-tree/cat-file with filters disabled + ptrspec) of every pointer in every commit reachable from the remote's refs vs the server store. Class = (transport, family, batch size, set of step kinds)."
+	run.Rule = "seeded histories (histgen: branches, merges incl. octopus, orphan branches, tags, renames/copies/deletes, files moving in and out of LFS tracking, nested .gitattributes, symlinks, exec bits, empty files) pushed by seeded plans over {git push <branch>, --all, --tags, new commits, amended+forced, deleted refs, git lfs push <ref>, git lfs push --all, a second clone moving the remote branch, a branch deleted on the remote by someone else with its objects garbage-collected on the server and then merged and pushed again from a clone holding the stale tracking ref, missing local object with/without lfs.allowincompletepush} x batch size {1,2,3,100} x {http fake server, file:// standalone remote} x transient server faults in one http case out of three {PUT 503, PUT connection reset, batch 429, mixed, uploads answered 200 but lost while the verify action truthfully answers 404, upload actions that are already expired in the first answer, and the schedule 'an object uses up its retry budget, then meets objects not yet sent in a batch call that fails' with a bulk commit and a slow batch endpoint}; family b re-points the remote to an empty server. Oracle: brute-force enumeration (git rev-list/ls-tree/cat-file with filters disabled + ptrspec) of every pointer in every commit reachable from the remote's refs vs the server store. Class = (transport, family, batch size, set of step kinds)."
 	run.Assumptions = []string{"family a: the fake server never loses objects and remote-tracking refs only change through push/fetch against the same server, so 'reachable from remote refs => on server' is an invariant every correct implementation maintains", "pointers are the canonical non-empty pointers found in any tree (the generator creates no look-alikes)", "git 2.39.5"}
 	n := run.N(40, 400)
 	workers := runtime.NumCPU()
